@@ -45,6 +45,39 @@ STRESS_CC = r'''
 static std::atomic<int> vf_cnt[64]; static std::atomic<int> vf_bad{0};
 static void vf_task(const mjModel* m, mjData* d, void* arg, int tid, int task) { vf_cnt[task].fetch_add(1); if (tid < 0 || tid > *(int*)arg) vf_bad.store(1); }
 static void vf_alarm(int s) { _exit(99); }
+// stall injection: thread `vf_stall_tid` (0 = dispatching thread, workers numbered by first atomic access) sleeps before its vf_stall_k-th atomic access
+static int vf_stall_tid = -1, vf_stall_k = 0, vf_stall_us = 0, vf_stall2_tid = -1, vf_stall2_k = 0, vf_stall2_us = 0; static std::atomic<int> vf_nthreads{0};
+static thread_local int vf_tid = -1; static thread_local int vf_count = 0; static thread_local bool vf_in_hook = false;
+extern "C" void vf_atomic_point() {
+  if (vf_in_hook) return; vf_in_hook = true;
+  if (vf_tid < 0) vf_tid = vf_nthreads.fetch_add(1);
+  if (vf_tid == vf_stall_tid || vf_tid == vf_stall2_tid) { ++vf_count; if (vf_tid == vf_stall_tid && vf_count == vf_stall_k) usleep(vf_stall_us); if (vf_tid == vf_stall2_tid && vf_count == vf_stall2_k) usleep(vf_stall2_us); }
+  vf_in_hook = false;
+}
+// one history on a fresh pool: dispatch(n0) [dispatch(n1)]; the dispatching thread is thread 0
+extern "C" int vf_history(int W, int n0, int n1, int stall_tid, int stall_k, int stall_us, int stall_round, int stall2_tid, int stall2_k, int stall2_us) {
+  vf_stall2_tid = stall2_tid; vf_stall2_k = stall2_k; vf_stall2_us = stall2_us;
+  static mjData d; memset(&d, 0, sizeof(d));
+  vf_stall_tid = stall_tid; vf_stall_k = stall_k; vf_stall_us = stall_us; vf_nthreads.store(0); vf_tid = -1; vf_count = 0; vf_bad.store(0);
+  signal(SIGALRM, vf_alarm); alarm(10);
+  vf_atomic_point();                       // register the dispatcher as thread 0
+  vf_count = 1 << 30;                      // its accesses are counted only inside the selected Dispatch call
+  mju_threadpool(&d, W);
+  int rc = 0; int ns[2] = {n0, n1};
+  for (int r = 0; r < 2 && !rc; r++) {
+    if (ns[r] < 0) break;
+    for (int i = 0; i < 64; i++) vf_cnt[i].store(0);
+    if (r == stall_round) vf_count = 0;     // the dispatching thread's accesses are counted from the start of this Dispatch
+    reinterpret_cast<ThreadPoolContext*>(d.threadpool)->Dispatch(nullptr, &d, vf_task, &W, ns[r]);
+    vf_count = 1 << 30;
+    for (int i = 0; i < 64; i++) if (vf_cnt[i].load() != (i < ns[r] ? 1 : 0)) rc = 1;
+    if (vf_bad.load()) rc = 2;
+  }
+  vf_stall_tid = -1; vf_stall2_tid = -1;
+  mju_threadpool(&d, 0);
+  alarm(0);
+  return rc;
+}
 // returns 0 ok, 1 task count wrong, 2 bad thread id; exits 99 on hang
 extern "C" int vf_stress(int W, int ntask, int rounds) {
   static mjData d; memset(&d, 0, sizeof(d));
@@ -70,7 +103,7 @@ def stress_so():
         wrapper = os.path.join(build.WORK, 'vf_thread_wrap.cc')
         os.makedirs(build.WORK, exist_ok=True)
         open(wrapper, 'w').write('#include "%s"\n' % os.path.join(build.REPO, TU) + STRESS_CC)
-        _c['so'] = build.native_lib([], [wrapper], name='thread_stress', expose_static=False)
+        _c['so'] = build.native_lib([wrapper], [], name='thread_stress', expose_static=False, hook_atomics='points')
     return _c['so']
 
 
@@ -98,8 +131,8 @@ def key_of(v):
     return repr(v)
 
 
-def unit_pool(tier, W_, N, B=2):
-    ck = Checker('pool_W%d_N%d_B%d' % (W_, N, B), tier, timeout_s=30)
+def unit_pool(tier, W_, N, B=2, fixed=None):
+    ck = Checker('pool_W%d_N%d_B%d%s' % (W_, N, B, '' if fixed is None else '_n' + ''.join(map(str, fixed))), tier, timeout_s=30)
     m = mod()
     nt = [z3.BitVec('ntask%d' % b, 32) for b in range(B)]
     def task_stub(ex, st, args, ins):
@@ -124,6 +157,7 @@ def unit_pool(tier, W_, N, B=2):
     st0 = llsym.State()
     pool = Pool(ex, st0, W_)
     st0.pc += [z3.And(n >= 0, n <= N) for n in nt]
+    if fixed is not None: st0.pc += [n == v for n, v in zip(nt, fixed)]
     st0.aux['batch'] = 0; st0.aux['sleeping'] = frozenset(); st0.aux['tid'] = 0
     ex.is_shared = lambda st, p: isinstance(p, llsym.Ptr) and p.obj == pool.p.obj and p.off in pool.shared
     # thread programs
@@ -150,14 +184,41 @@ def unit_pool(tier, W_, N, B=2):
     def dec_for(st):
         return lambda mdl: {'ntask': [W.evalnum(mdl, x) for x in nt], 'W': W_}
     def stress_replay(model, witness):
+        """the counterexample schedule preempts a thread between two of its atomic accesses; natively this is reproduced with the real engine_thread.cc and real
+        threads by delaying one thread before its k-th atomic access (hook inserted in the IR before every atomic instruction), sweeping thread and k; then by plain stress"""
         lib_path = stress_so()
-        n0 = max(2, W.evalnum(model, nt[0])) if model is not None else 2
-        def child():
+        ns = [int(W.evalnum(model, n)) if model is not None else 2 for n in nt] + [-1]
+        tried = 0
+        hist = 'threadpool(%d) %s' % (W_, ' '.join('dispatch(%d)' % n for n in ns if n >= 0))
+        def attempt(rnd, a, b):
+            nonlocal tried
+            def child():
+                lib = ctypes.CDLL(lib_path); return lib.vf_history(W_, ns[0], ns[1], a[0], a[1], a[2], rnd, b[0], b[1], b[2])
+            r = W.run_child(child, timeout=30); tried += 1
+            bad = (r[0] == 'ok' and r[1] != 0) or r[0] in ('crash', 'timeout')
+            if bad: return {'history': hist, 'stalls (thread, before its atomic access number, microseconds)': [list(a)] + ([list(b)] if b[0] >= 0 else []), 'dispatcher accesses counted from dispatch number': rnd,
+                            'outcome': str(r)[:120] + ' (1: a task did not run exactly once, 2: bad thread id, exit 99/timeout: deadlock)'}
+            return None
+        none = (-1, 0, 0)
+        for rnd in range(len([n for n in ns if n >= 0])):
+            # one delayed thread
+            for tid in range(W_ + 1):
+                if tid != 0 and rnd > 0: continue      # worker accesses are counted from thread start: one sweep covers both rounds
+                for k in range(1, 13 if tid == 0 else 31):
+                    d = attempt(rnd, (tid, k, 20000), none)
+                    if d: return True, d
+            # a late worker (short delay) inside a longer delay of the dispatching thread
+            for kd in range(1, 9):
+                for wk in range(1, W_ + 1):
+                    for kw in range(1, 7):
+                        d = attempt(rnd, (0, kd, 30000), (wk, kw, 10000))
+                        if d: return True, d
+        n0 = max(2, ns[0])
+        def child2():
             lib = ctypes.CDLL(lib_path); return lib.vf_stress(W_, int(n0), 3000)
-        r = W.run_child(child, timeout=60)
-        bad = (r[0] == 'ok' and r[1] != 0) or r[0] in ('crash', 'timeout') or (r[0] == 'crash')
-        if r[0] == 'crash' and r[1] == -99: bad = True
-        return bad, {'stress (real threads, 3000 dispatches)': str(r)[:200], 'note': 'schedules are not controllable natively; reproduction is by stress'}
+        r = W.run_child(child2, timeout=60)
+        bad = (r[0] == 'ok' and r[1] != 0) or r[0] in ('crash', 'timeout')
+        return bad, {'stall sweep runs': tried, 'stress (real threads, 3000 dispatches)': str(r)[:200]}
     proved = set()
     def check_batch_end(st, phase, sched):
         nonlocal batches_checked
